@@ -111,7 +111,9 @@ class GraphModel(RDFModel):
             "abstract Store contract (G, K views) is what Graph/Dataset code is verified against; Memory and "
             "SimpleMemory are proved against their own views in c01_memory/c01_simplememory and the two are linked by "
             "the refinement argument of DESIGN.md 6.1 (key function injective; union index = exists n. G[t][n])",
-            "Memory.remove is not yet under proof: its Store.remove contract is assumed for Memory (bounded stand-in)",
+            "Store.remove / remove_graph: proved for Memory (c01_memory: Memory.remove, Memory.remove_graph) and SimpleMemory "
+            "against their concrete views; the lazy self-iteration inside Memory.remove is verified as an iteration over "
+            "the entry-state result (see the assumption recorded with c01_memory)",
             "_assertnode (isinstance(t, Node) assertions) is treated as true: terms are rdflib Nodes by typing",
             "Graph objects: dynamic class modelled by a ghost tag; identifier/store/default_context properties read "
             "the private fields; deprecation warnings dropped",
@@ -332,8 +334,8 @@ class GraphModel(RDFModel):
                           cls="Store", self_ty=STORE, post=rm_post,
                           modifies=lambda c: [(STORE_G, c.self.z)], trusted=True,
                           note="abstract: removes the matching triples from the given graph, or from every graph "
-                               "when context is None (proved for SimpleMemory.remove; assumed + bounded for "
-                               "Memory.remove)"))
+                               "when context is None (proved for SimpleMemory.remove and Memory.remove against their "
+                               "concrete views)"))
 
         # ---- triples
         def tr_member(c, z):
@@ -424,5 +426,5 @@ class GraphModel(RDFModel):
         self.add(Contract("C02", "rdflib/store.py", "Store.remove_graph", [Param("graph", GRAPH)], cls="Store",
                           self_ty=STORE, post=rg_post,
                           modifies=lambda c: [(STORE_G, c.self.z), (STORE_K, c.self.z)], trusted=True,
-                          note="abstract: empties and forgets that graph only (Memory.remove_graph = remove + "
-                               "discard; assumed + bounded)"))
+                          note="abstract: empties and forgets that graph only (proved: Memory.remove_graph against "
+                               "the Memory view, by the contract of Memory.remove)"))
